@@ -1116,6 +1116,11 @@ func ParseByteRange(byteRange []byte, contentLength int) (startPos, endPos int, 
 		if err != nil {
 			return 0, 0, err
 		}
+		// a suffix range selects the last v bytes: there is nothing to select
+		// from an empty file or with a zero suffix length (RFC 7233, Section 2.1)
+		if v == 0 || contentLength == 0 {
+			return 0, 0, fmt.Errorf("unsatisfiable suffix byte range %q for content length %d", byteRange, contentLength)
+		}
 		startPos := contentLength - v
 		if startPos < 0 {
 			startPos = 0
